@@ -1,4 +1,5 @@
 import GoaVerif.Lemmas.DupHeap
+import GoaVerif.Lemmas.DupEq
 import GoaVerif.Lemmas.TypeHash
 /-!
 # C13 — structural hashes: property theorems
@@ -230,6 +231,35 @@ def hRec : List Cell :=
 example : dupTop 10 hRec 0 =
     some (8, hRec ++ [.user "T" 14 none, .blob "meta", .blob "validation", .att 8 none (some 10), .att 6 none none,
                       .obj [("self", 11), ("n", 12)], .att 13 (some 9) none]) := by decide
+
+/-- **Equality.** The copy `Dup` returns is equal to the original: the tree that can be observed from the
+    root of the copy — constructors, type names, attribute names, metadata and validation contents, to ANY
+    depth, through cycles — is the tree observed from the original root. Hypotheses: the original heap is
+    closed under its pointers, and a type name identifies one user type (the memo of `dupper` is keyed by
+    the name). The `Views` of a result type are outside the observation (`views_shared`). -/
+theorem dup_equal (fuel : Nat) (heap : List Cell) (root r : Nat) (heap' : List Cell)
+    (hc : Closed heap) (hu : UniqueIds heap) (hroot : root < heap.length)
+    (h : dupTop fuel heap root = some (r, heap')) :
+    ∀ n, obs n heap' r = obs n heap root :=
+  dupTop_equal heap hc hu fuel root r heap' hroot h
+
+/-- the hypotheses hold of the recursive example, and the observation is not trivial -/
+example : closedB hRec = true ∧ uniqueIdsB hRec = true := by decide
+example : Closed hRec ∧ UniqueIds hRec := ⟨closed_of_closedB (by decide), uniqueIds_of_uniqueIdsB (by decide)⟩
+
+/-- `UniqueIds` is needed: two DIFFERENT user types with one name are merged by the memo — the copy of
+    the second is the copy of the first (both attributes of the copy point at cell 9, a `T` over `int`;
+    the original's `b` was a `T` over `string`). -/
+def hTwoNamesakes : List Cell :=
+  [.obj [("a", 1), ("b", 4)], .att 2 none none, .user "T" 3 none, .att 7 none none,
+   .att 5 none none, .user "T" 6 none, .att 8 none none, .prim "int", .prim "string"]
+theorem namesakes_are_merged :
+    uniqueIdsB hTwoNamesakes = false ∧
+    dupTop 12 hTwoNamesakes 0 = some (13, hTwoNamesakes ++
+      [.user "T" 10 none, .att 7 none none, .att 9 none none, .att 9 none none, .obj [("a", 11), ("b", 12)]]) := by
+  constructor
+  · decide
+  · decide
 
 def hViews : List Cell := [.user "R" 1 (some 3), .att 2 none none, .prim "string", .blob "views"]
 
